@@ -332,6 +332,110 @@ def case_linsteps(ctx, npoints, num, endpoint, axis):
         ctx.equal("steps_on_axis", st, full)
 
 
+def _eig_call(ctx, fun, S_, vectors, lo=0.2, hi=3.0):
+    """runs a felupe eigen-wrapper; returns (result, w, v) where w[idx] / v[idx] is what LAPACK returned for the tensor of
+    batch item idx: the recorded contract stub in symbolic mode, LAPACK itself per item in float mode"""
+    from symnp.npproxy import EIG_LOG
+
+    d, b = S_.shape[0], S_.shape[2:]
+    n0 = len(EIG_LOG)
+    res = fun(S_)
+    w, v = {}, {}
+    if ctx.sym:
+        if len(EIG_LOG) != n0 + 1:
+            raise AssertionError("expected exactly one eigen-solver call, saw %d" % (len(EIG_LOG) - n0))
+        rec = EIG_LOG[n0]
+        ctx.adopt(rec["w"], lo, hi)
+        if vectors:
+            ctx.adopt(rec["v"], -1, 1)
+        a = rec["a"]
+        # the solver is handed batch-leading (..., d, d) data; axes of the batch may be permuted by the wrapper (a.T): find the item by symbol
+        got = np.empty(S_.shape, dtype=object)
+        perm = None
+        import itertools
+
+        for pm in itertools.permutations(range(len(b))):
+            if tuple(b[k] for k in pm) == a.shape[:-2]:
+                perm = pm if perm is None else perm
+        cands = [pm for pm in itertools.permutations(range(len(b))) if tuple(b[k] for k in pm) == a.shape[:-2]]
+        chosen = None
+        for pm in cands:
+            ok = True
+            for idx in np.ndindex(*b):
+                lead = tuple(idx[k] for k in pm)
+                if not all(a[lead + (i, j)] is S_[(i, j) + idx] or a[lead + (i, j)] is S_[(j, i) + idx] or getattr(a[lead + (i, j)], "n", None) is getattr(S_[(i, j) + idx], "n", 0) or getattr(a[lead + (i, j)], "n", None) is getattr(S_[(j, i) + idx], "n", 0) for i in range(d) for j in range(d)):
+                    ok = False
+                    break
+            if ok:
+                chosen = pm
+                break
+        ctx.check_concrete("eigen_solver_received_each_tensor_of_the_batch", chosen is not None)
+        if chosen is None:
+            return res, None, None
+        for idx in np.ndindex(*b):
+            lead = tuple(idx[k] for k in chosen)
+            w[idx] = rec["w"][lead]
+            if vectors:
+                v[idx] = rec["v"][lead]
+    else:
+        ctx.check_concrete("eigen_solver_received_each_tensor_of_the_batch", True)
+        for idx in np.ndindex(*b):
+            M = np.array(S_[(slice(None), slice(None)) + idx], dtype=float)
+            if vectors:
+                w[idx], v[idx] = np.linalg.eigh(M)
+            else:
+                w[idx] = np.linalg.eigvalsh(M)
+    return res, w, v
+
+
+def _stack(ctx, b, fn, lead_shape):
+    out = np.empty(tuple(lead_shape) + tuple(b), dtype=object if ctx.sym else float)
+    for idx in np.ndindex(*b):
+        val = np.asarray(fn(idx))
+        for k in np.ndindex(*lead_shape):
+            out[k + idx] = val[k]
+    return out
+
+
+def case_eig(ctx, dim, batch):
+    """eigen-wrappers: LAPACK is a contract stub (fresh symbols per call, ascending order NOT assumed); checked is felupe's own axis
+    re-ordering (trailing batch axes <-> LAPACK's leading ones), the shear differences and the spectral re-composition of strain()"""
+    b, d = tuple(batch), dim
+    A = T(ctx, "A", 2, d, b)
+    S_ = np.empty(A.shape, dtype=A.dtype)
+    for i in range(d):
+        for j in range(d):
+            S_[i, j] = A[min(i, j), max(i, j)]
+    if not ctx.sym:
+        # positive definite float sample: S S^T + I
+        S_ = np.einsum("ik...,jk...->ij...", S_, S_) + np.eye(d).reshape((d, d) + (1,) * len(b))
+    res, w, v = _eig_call(ctx, fm.eigh, S_, True)
+    if w is None:
+        return
+    ctx.equal("eigh_eigenvalues_axis_order", res[0], _stack(ctx, b, lambda idx: w[idx], (d,)), tol=1e-9)
+    ctx.equal("eigh_eigenvectors_axis_order", res[1], _stack(ctx, b, lambda idx: v[idx], (d, d)), tol=1e-9)
+    res, w, _v = _eig_call(ctx, fm.eigvalsh, S_, False)
+    ctx.equal("eigvalsh_axis_order", res, _stack(ctx, b, lambda idx: w[idx], (d,)), tol=1e-9)
+    if d > 1:
+        res, w, _v = _eig_call(ctx, lambda x: fm.eigvalsh(x, shear=True), S_, False)
+        ij = [(1, 0)] if d == 2 else [(1, 0), (2, 0), (2, 1)]
+        ctx.equal("eigvalsh_shear_rows", res, _stack(ctx, b, lambda idx: np.array(list(w[idx]) + [w[idx][i] - w[idx][j] for i, j in ij], dtype=object if ctx.sym else float), (d + len(ij),)), tol=1e-9)
+    # strain(): spectral re-composition sum_a f(sqrt(w_a)) N_a (x) N_a for Seth-Hill exponents k = 0 (log), 2 (Green-Lagrange), -2 (Almansi-type)
+    box = {"atom:root": (0.4, 1.8), "atom:log": (-1, 1)}
+    for k in (0, 2, -2):
+        f = (lambda x: np.log(x)) if k == 0 else (lambda x, k=k: (x**k - 1) / k)
+        res, w, v = _eig_call(ctx, lambda x: fm.strain(None, C=x, tensor=True, k=k), S_, True)
+        exp = _stack(ctx, b, lambda idx: np.array([[sum(f(np.sqrt(w[idx][a])) * v[idx][i, a] * v[idx][j, a] for a in range(d)) for j in range(d)] for i in range(d)], dtype=object if ctx.sym else float), (d, d))
+        ctx.equal("strain_tensor_k%d_is_spectral_sum" % k, res, exp, tol=1e-9, box=box)
+        res, w, _v = _eig_call(ctx, lambda x: fm.strain(None, C=x, tensor=False, k=k), S_, False)
+        ctx.equal("principal_strains_k%d" % k, res, _stack(ctx, b, lambda idx: np.array([f(np.sqrt(w[idx][a])) for a in range(d)], dtype=object if ctx.sym else float), (d,)), tol=1e-9, box=box)
+    if d == 3:
+        res, w, v = _eig_call(ctx, lambda x: fm.strain(None, C=x, tensor=True, asvoigt=True, k=2), S_, True)
+        vo = [(0, 0), (1, 1), (2, 2), (0, 1), (1, 2), (0, 2)]
+        exp = _stack(ctx, b, lambda idx: np.array([(1 if i == j else 2) * sum((w[idx][a] - 1) / 2 * v[idx][i, a] * v[idx][j, a] for a in range(d)) for i, j in vo], dtype=object if ctx.sym else float), (6,))
+        ctx.equal("strain_voigt_doubles_shear_components", res, exp, tol=1e-9, box=box)
+
+
 def cases(tier):
     out = []
     thorough = tier == "thorough"
@@ -354,6 +458,9 @@ def cases(tier):
     for d in (1, 2, 3):
         out.append(("solve", case_solve, {"dim": d, "n": 1, "batch": [2]}))
     out.append(("solve", case_solve, {"dim": 2, "n": 2, "batch": [1]}))
+    for d in (2, 3):
+        for b in ([(2,)] + ([(2, 3)] if thorough else [])):
+            out.append(("eig", case_eig, {"dim": d, "batch": list(b)}))
     for dim, axes in ((2, (0,)), (3, (0, 1, 2))):
         for ax in axes:
             out.append(("rotation", case_rotation, {"dim": dim, "axis": ax}))
